@@ -281,18 +281,25 @@ Section Hoist.
 Variable c : cfg.
 Variable esc : bool.
 Variable sigma : name -> option lit.
+Variable ok : name -> bool.
 Let m := c_mode c.
+
+Definition no_macros (s : st) : Prop := forall f, ok f = true -> not_macro c s f.
+
+Lemma no_macros_same s t : same s t -> no_macros s -> no_macros t.
+Proof. intros (A & B & _) H f Hf mc cl. rewrite <- A, <- B. exact (H f Hf mc cl). Qed.
 
 (* the statement for one evaluator call *)
 Definition hoist_ok (ev : st -> expr -> outcome (value * st)) (x : expr) : Prop :=
-  pure x = true -> forall s1 s2, same s1 s2 -> bound c s1 sigma -> res_rel s1 s2 (ev s1 x) (ev s2 (subst sigma x)).
+  callsafe ok x = true -> forall s1 s2, same s1 s2 -> bound c s1 sigma -> no_macros s1 ->
+  res_rel s1 s2 (ev s1 x) (ev s2 (subst sigma x)).
 
 Lemma map_eval_rel ev items :
-  (forall x, In x items -> hoist_ok ev x) -> forallb pure items = true ->
-  forall s1 s2, same s1 s2 -> bound c s1 sigma ->
+  (forall x, In x items -> hoist_ok ev x) -> forallb (callsafe ok) items = true ->
+  forall s1 s2, same s1 s2 -> bound c s1 sigma -> no_macros s1 ->
   res_rel s1 s2 (map_eval ev s1 items) (map_eval ev s2 (map (subst sigma) items)).
 Proof.
-  induction items as [|x r IH]; intros Hev Hp s1 s2 Hs Hb.
+  induction items as [|x r IH]; intros Hev Hp s1 s2 Hs Hb Hn.
   - cbn. auto using same_refl.
   - cbn [forallb] in Hp. apply andb_prop in Hp as [Hpx Hpr]. cbn [map map_eval].
     apply bind_rel; [apply Hev; auto; left; reflexivity|].
@@ -302,15 +309,35 @@ Proof.
       * intros y Hy. apply Hev. right. exact Hy.
       * exact (same_step _ _ _ _ Hs H1 H2).
       * eapply bound_same; eauto.
+      * eapply no_macros_same; eauto.
+    + intros vs u1 u2 A1 A2. cbn beta iota. apply res_rel_ok; assumption.
+Qed.
+
+Lemma map_eval_kw_rel ev kw :
+  (forall p, In p kw -> hoist_ok ev (snd p)) -> forallb (fun p => callsafe ok (snd p)) kw = true ->
+  forall s1 s2, same s1 s2 -> bound c s1 sigma -> no_macros s1 ->
+  res_rel s1 s2 (map_eval_kw ev s1 kw) (map_eval_kw ev s2 (map (fun p => (fst p, subst sigma (snd p))) kw)).
+Proof.
+  induction kw as [|[k x] r IH]; intros Hev Hp s1 s2 Hs Hb Hn.
+  - cbn. auto using same_refl.
+  - cbn [forallb snd] in Hp. apply andb_prop in Hp as [Hpx Hpr]. cbn [map map_eval_kw fst snd].
+    apply bind_rel; [apply (Hev (k, x)); auto; left; reflexivity|].
+    intros v t1 t2 H1 H2. cbn beta iota.
+    apply bind_rel.
+    + eapply res_rel_weaken; eauto. apply IH; auto.
+      * intros y Hy. apply Hev. right. exact Hy.
+      * exact (same_step _ _ _ _ Hs H1 H2).
+      * eapply bound_same; eauto.
+      * eapply no_macros_same; eauto.
     + intros vs u1 u2 A1 A2. cbn beta iota. apply res_rel_ok; assumption.
 Qed.
 
 Lemma cmp_chain_rel ev rest :
-  (forall p, In p rest -> hoist_ok ev (snd p)) -> forallb (fun p => pure (snd p)) rest = true ->
-  forall left s1 s2, same s1 s2 -> bound c s1 sigma ->
+  (forall p, In p rest -> hoist_ok ev (snd p)) -> forallb (fun p => callsafe ok (snd p)) rest = true ->
+  forall left s1 s2, same s1 s2 -> bound c s1 sigma -> no_macros s1 ->
   res_rel s1 s2 (cmp_chain m ev left s1 rest) (cmp_chain m ev left s2 (map (fun p => (fst p, subst sigma (snd p))) rest)).
 Proof.
-  induction rest as [|[op r] l' IH]; intros Hev Hp left s1 s2 Hs Hb.
+  induction rest as [|[op r] l' IH]; intros Hev Hp left s1 s2 Hs Hb Hn.
   - cbn. auto using same_refl.
   - cbn [forallb snd] in Hp. apply andb_prop in Hp as [Hpx Hpr]. cbn [map cmp_chain fst snd].
     apply bind_rel; [apply (Hev (op, r)); auto; left; reflexivity|].
@@ -323,23 +350,25 @@ Proof.
       apply (IH (fun q Hq => Hev q (or_intror Hq)) Hpr y).
       * exact (same_step _ _ _ _ Hs H1 H2).
       * eapply bound_same; eauto.
+      * eapply no_macros_same; eauto.
 Qed.
 
 Lemma hoist_all : forall fuel e, hoist_ok (eval c fuel esc) e.
 Proof.
-  induction fuel as [|fuel IH]; intros e Hp s1 s2 Hs Hb.
+  induction fuel as [|fuel IH]; intros e Hp s1 s2 Hs Hb Hn.
   { cbn. exact I. }
   (* evaluating a sub-expression from later states *)
-  assert (IHk : forall a t1 t2, pure a = true -> same s1 t1 -> same s2 t2 ->
+  assert (IHk : forall a t1 t2, callsafe ok a = true -> same s1 t1 -> same s2 t2 ->
             res_rel s1 s2 (eval c fuel esc t1 a) (eval c fuel esc t2 (subst sigma a))).
   { intros a t1 t2 Ha H1 H2. eapply res_rel_weaken; eauto. apply IH; auto.
     - exact (same_step _ _ _ _ Hs H1 H2).
-    - eapply bound_same; eauto. }
-  assert (IHl : forall args t1 t2, forallb pure args = true -> same s1 t1 -> same s2 t2 ->
+    - eapply bound_same; eauto.
+    - eapply no_macros_same; eauto. }
+  assert (IHl : forall args t1 t2, forallb (callsafe ok) args = true -> same s1 t1 -> same s2 t2 ->
             res_rel s1 s2 (map_eval (eval c fuel esc) t1 args) (map_eval (eval c fuel esc) t2 (map (subst sigma) args))).
   { intros args t1 t2 Ha H1 H2. eapply res_rel_weaken; eauto.
-    apply map_eval_rel; [intros x _; apply IH | assumption | exact (same_step _ _ _ _ Hs H1 H2) | eapply bound_same; eauto]. }
-  destruct e; cbn [pure] in Hp; cbn [subst].
+    apply map_eval_rel; [intros x _; apply IH | assumption | exact (same_step _ _ _ _ Hs H1 H2) | eapply bound_same; eauto | eapply no_macros_same; eauto]. }
+  destruct e; cbn [callsafe] in Hp; cbn [subst].
   - (* EConst *) rewrite !eval_const. apply res_rel_ok; apply same_refl.
   - (* EVar *)
     destruct (sigma x) as [l|] eqn:Ex.
@@ -372,7 +401,7 @@ Proof.
     apply andb_prop in Hp as [Hp1 Hp2].
     cbn [eval]. apply bind_rel; [apply IHk; auto using same_refl|].
     intros x t1 t2 H1 H2. cbn beta iota. eapply res_rel_weaken; eauto.
-    apply cmp_chain_rel; [intros p _; apply IH | assumption | exact (same_step _ _ _ _ Hs H1 H2) | eapply bound_same; eauto].
+    apply cmp_chain_rel; [intros p _; apply IH | assumption | exact (same_step _ _ _ _ Hs H1 H2) | eapply bound_same; eauto | eapply no_macros_same; eauto].
   - (* EAnd *)
     apply andb_prop in Hp as [Hp1 Hp2].
     cbn [eval]. apply bind_rel; [apply IHk; auto using same_refl|].
@@ -413,14 +442,43 @@ Proof.
     cbn [eval]. apply bind_rel; [apply IHk; auto using same_refl|].
     intros x t1 t2 H1 H2. cbn beta iota. apply bind_rel; [apply IHl; auto|].
     intros vs u1 u2 A1 A2. cbn beta iota. apply bind_pure_rel. intros r. apply res_rel_ok; assumption.
-  - (* ECall *) discriminate.
+  - (* ECall: the callee is not a macro, so no statement runs *)
+    apply andb_prop in Hp as [Hp12 Hp3]. apply andb_prop in Hp12 as [Hp1 Hp2].
+    cbn [eval]. apply bind_rel; [apply IHl; auto using same_refl|].
+    intros vs t1 t2 H1 H2. cbn beta iota.
+    apply bind_rel.
+    { eapply res_rel_weaken; eauto.
+      apply map_eval_kw_rel; [intros p _; apply IH | assumption | exact (same_step _ _ _ _ Hs H1 H2) | eapply bound_same; eauto | eapply no_macros_same; eauto]. }
+    intros kvs u1 u2 A1 A2. cbn beta iota.
+    pose proof (lookup_same c u1 f) as Hl1. pose proof (lookup_fst c u1 f) as Hf1.
+    pose proof (lookup_same c u2 f) as Hl2. pose proof (lookup_fst c u2 f) as Hf2.
+    destruct (lookup c u1 f) as [fv1 w1]. destruct (lookup c u2 f) as [fv2 w2]. cbn [fst snd] in *.
+    assert (Hu : same u1 u2) by exact (same_step _ _ _ _ Hs A1 A2).
+    destruct Hu as (A & B & _). rewrite <- A, <- B in Hf2. rewrite <- Hf1 in Hf2. subst fv2.
+    assert (W1 : same s1 w1) by (eapply same_trans; eauto).
+    assert (W2 : same s2 w2) by (eapply same_trans; eauto).
+    destruct fv1 as [fv|]; [|apply res_rel_err].
+    destruct fv as [ | | |bb|zz|sf ss|ll|mc cl|li ln|g]; try apply res_rel_err.
+    + (* a macro: excluded *)
+      exfalso. destruct A1 as (E1 & E2 & _). apply (Hn f Hp1 mc cl). rewrite E1, E2. symmetry. exact Hf1.
+    + destruct (g =? N_range); [|apply res_rel_err].
+      destruct vs as [|[] [|]]; try apply res_rel_err.
+      destruct kvs; [|apply res_rel_err]. apply res_rel_ok; assumption.
 Qed.
 End Hoist.
+
+Lemma hoist_calls_proof : forall c sigma ok e esc fuel s1 s2,
+  callsafe ok e = true -> (forall f, ok f = true -> not_macro c s1 f) -> same s1 s2 -> bound c s1 sigma ->
+  res_rel s1 s2 (eval c fuel esc s1 e) (eval c fuel esc s2 (subst sigma e)).
+Proof. intros. apply (hoist_all c esc sigma ok); assumption. Qed.
 
 Lemma hoist_equiv_proof : forall c sigma e esc fuel s1 s2,
   pure e = true -> same s1 s2 -> bound c s1 sigma ->
   res_rel s1 s2 (eval c fuel esc s1 e) (eval c fuel esc s2 (subst sigma e)).
-Proof. intros. apply hoist_all; assumption. Qed.
+Proof.
+  intros c sigma e esc fuel s1 s2 Hp Hs Hb. apply (hoist_calls_proof c sigma (fun _ => false)); auto.
+  intros f Hf. discriminate.
+Qed.
 
 (* ------------------------------------------------------------------------------------------ *)
 (* hoisting does not change the nesting depth                                                   *)
@@ -667,4 +725,136 @@ Proof.
   intros c sigma e esc fuel s Hp Hb Hd.
   rewrite !fold_everywhere_proof by (rewrite ?depth_subst; assumption).
   apply hoist_equiv_proof; auto using same_refl.
+Qed.
+
+(* ------------------------------------------------------------------------------------------ *)
+(* fold_agrees for EVERY fuel: the evaluation of a folded expression can only be the folded       *)
+(* value (state untouched) or the model's own out-of-gas                                         *)
+(* ------------------------------------------------------------------------------------------ *)
+Definition ok_or_gas {A} (r : outcome A) (a : A) : Prop := r = Ok a \/ r = OutOfGas.
+
+Lemma const_values_eval_any c esc items vs :
+  const_values items = Some vs ->
+  forall fuel s, ok_or_gas (map_eval (eval c fuel esc) s items) (vs, s).
+Proof.
+  intros H fuel s. destruct fuel as [|fuel].
+  - destruct items as [|x r]; [inversion H; left; reflexivity|]. right. reflexivity.
+  - left. apply const_values_eval. exact H.
+Qed.
+
+Section AgreeAny.
+Variable c : cfg.
+Variable esc : bool.
+Let m := c_mode c.
+
+Definition agrees_any (fuel : nat) (e : expr) : Prop :=
+  forall v, as_const e = Some v -> forall s, ok_or_gas (eval c fuel esc s e) (v, s).
+
+Lemma chain_agrees_any fuel rest :
+  (forall p, In p rest -> agrees_any fuel (snd p)) ->
+  forall left v, is_undef left = false -> fold_chain as_const left rest = Some v ->
+  forall s, ok_or_gas (cmp_chain m (eval c fuel esc) left s rest) (v, s).
+Proof.
+  induction rest as [|[op r] l' IH]; intros Hop left v Hl H s.
+  - inversion H. left. reflexivity.
+  - cbn [fold_chain] in H.
+    destruct (as_const r) as [right|] eqn:Er; cbn [obind] in H; try discriminate.
+    destruct (eval_compare op left right) as [res|] eqn:Ec; cbn [obind] in H; try discriminate.
+    pose proof (fold_defined_proof r right Er) as Hr.
+    destruct (eval_compare_do_cmp m op left right res Hl Hr Ec) as [b [-> Hd]].
+    cbn [truthy] in H. cbn [cmp_chain].
+    destruct (Hop (op, r) (or_introl eq_refl) right Er s) as [Hev|Hev]; cbn [snd] in Hev; rewrite Hev;
+      [|right; reflexivity].
+    cbn [bind]. rewrite Hd. cbn [bind].
+    destruct b.
+    + destruct l' as [|p l'']; [inversion H; left; reflexivity|].
+      apply (IH (fun p Hp => Hop p (or_intror Hp)) right v Hr H).
+    + inversion H. left. destruct l'; reflexivity.
+Qed.
+
+Lemma agrees_any_all : forall fuel e, agrees_any fuel e.
+Proof.
+  induction fuel as [|fuel IH]; intros e v H s.
+  { right. reflexivity. }
+  destruct e; unfold as_const in H; cbn [as_const_gen] in H; fold as_const in H; try discriminate.
+  - (* EConst *) inversion H; subst. left. apply eval_const.
+  - (* EList *)
+    destruct (const_values items) as [vs|] eqn:E; cbn [omap] in H; try discriminate. inversion H; subst.
+    cbn [eval]. destruct (const_values_eval_any c esc items vs E fuel s) as [Hm|Hm]; rewrite Hm; [left|right]; reflexivity.
+  - (* ENeg *)
+    destruct (as_const e) as [x|] eqn:E; cbn [obind] in H; try discriminate. apply ok_of_some in H.
+    cbn [eval]. destruct (IH e x E s) as [Hev|Hev]; rewrite Hev; [|right; reflexivity]. cbn [bind].
+    destruct x; cbn in H; try discriminate. inversion H. left. reflexivity.
+  - (* ENot *)
+    destruct (as_const e) as [x|] eqn:E; cbn [omap] in H; try discriminate. inversion H; subst.
+    cbn [eval]. destruct (IH e x E s) as [Hev|Hev]; rewrite Hev; [|right; reflexivity]. cbn [bind].
+    fold m. rewrite (u_is_true_defined m x (fold_defined_proof e x E)). left. reflexivity.
+  - (* EBin *)
+    destruct (as_const e1) as [x|] eqn:E1; try discriminate.
+    destruct (as_const e2) as [y|] eqn:E2; try discriminate. apply ok_of_some in H.
+    cbn [eval]. destruct (IH e1 x E1 s) as [Hev|Hev]; rewrite Hev; [|right; reflexivity]. cbn [bind].
+    destruct (IH e2 y E2 s) as [Hev2|Hev2]; rewrite Hev2; [|right; reflexivity]. cbn [bind]. fold m.
+    rewrite (u_not_undef_defined m x (fold_defined_proof e1 x E1)), (u_not_undef_defined m y (fold_defined_proof e2 y E2)).
+    assert (Hg : match op with OConcat => bind (Ok tt) (fun _ : unit => Ok tt) | _ => Ok tt end = (Ok tt : outcome unit))
+      by (destruct op; reflexivity).
+    rewrite Hg. cbn [bind]. rewrite H. left. reflexivity.
+  - (* ECmp *)
+    destruct rest as [|[op b] rest'].
+    + destruct (as_const e) as [x|] eqn:E; cbn [obind fold_chain] in H; try discriminate. inversion H; subst.
+      cbn [eval]. destruct (IH e x E s) as [Hev|Hev]; rewrite Hev; [left|right]; reflexivity.
+    + destruct rest' as [|p2 rest''].
+      * assert (Hshape : exists x y, as_const e = Some x /\ as_const b = Some y /\
+                  (match op with
+                   | CNotIn => omap (fun v => VBool (negb (truthy v))) (eval_compare CIn x y)
+                   | _ => eval_compare op x y end) = Some v).
+        { destruct op; destruct (as_const e) as [x|]; try discriminate;
+            destruct (as_const b) as [y|]; try discriminate; exists x, y; repeat split; exact H. }
+        destruct Hshape as [x [y [E1 [E2 Hv]]]].
+        pose proof (fold_defined_proof e x E1) as Hx. pose proof (fold_defined_proof b y E2) as Hy.
+        assert (Hr : exists r, v = VBool r /\ do_cmp m op x y = Ok r).
+        { destruct op; try solve [eapply eval_compare_do_cmp; eassumption].
+          destruct (eval_compare CIn x y) as [w|] eqn:Ew; cbn [omap] in Hv; try discriminate.
+          destruct (eval_compare_do_cmp m CIn x y w Hx Hy Ew) as [r [-> Hd']].
+          inversion Hv. exists (negb r). split; [reflexivity|].
+          unfold do_cmp in *. rewrite (u_not_undef_defined m y Hy), (u_not_undef_defined m x Hx) in *.
+          cbn [bind] in *. destruct (contains y x); cbn [bind] in *; try discriminate. inversion Hd'. reflexivity. }
+        destruct Hr as [r [-> Hd']].
+        cbn [eval]. destruct (IH e x E1 s) as [Hev|Hev]; rewrite Hev; [|right; reflexivity]. cbn [bind cmp_chain].
+        destruct (IH b y E2 s) as [Hev2|Hev2]; rewrite Hev2; [|right; reflexivity]. cbn [bind]. fold m. rewrite Hd'.
+        left. reflexivity.
+      * assert (Hshape : exists x, as_const e = Some x /\ fold_chain as_const x ((op, b) :: p2 :: rest'') = Some v).
+        { destruct op; destruct (as_const e) as [x|]; try discriminate; exists x; (split; [reflexivity|exact H]). }
+        destruct Hshape as [x [E1 Hc]].
+        cbn [eval]. destruct (IH e x E1 s) as [Hev|Hev]; rewrite Hev; [|right; reflexivity]. cbn [bind]. fold m.
+        apply (chain_agrees_any fuel _ (fun p _ => IH (snd p)) x v (fold_defined_proof e x E1) Hc).
+  - (* EAnd *)
+    destruct (as_const e1) as [x|] eqn:E1; try discriminate.
+    destruct (as_const e2) as [y|] eqn:E2; try discriminate. inversion H; subst.
+    cbn [eval]. destruct (IH e1 x E1 s) as [Hev|Hev]; rewrite Hev; [|right; reflexivity]. cbn [bind]. fold m.
+    rewrite (u_is_true_defined m x (fold_defined_proof e1 x E1)). cbn [bind]. unfold fold_and.
+    destruct (truthy x); [apply (IH e2 y E2 s)|left; reflexivity].
+  - (* EOr *)
+    destruct (as_const e1) as [x|] eqn:E1; try discriminate.
+    destruct (as_const e2) as [y|] eqn:E2; try discriminate. inversion H; subst.
+    cbn [eval]. destruct (IH e1 x E1 s) as [Hev|Hev]; rewrite Hev; [|right; reflexivity]. cbn [bind]. fold m.
+    rewrite (u_is_true_defined m x (fold_defined_proof e1 x E1)). cbn [bind]. unfold fold_or.
+    destruct (truthy x); [left; reflexivity|apply (IH e2 y E2 s)].
+Qed.
+End AgreeAny.
+
+Lemma fold_agrees_any_fuel_proof : forall e v, as_const e = Some v ->
+  forall c fuel esc s, eval c fuel esc s e = Ok (v, s) \/ eval c fuel esc s e = OutOfGas.
+Proof. intros e v H c fuel esc s. exact (agrees_any_all c esc fuel e v H s). Qed.
+
+(* the property with calls of non-macro callees, on the compiled forms (top-level and deep folding) *)
+Lemma literal_variable_equiv_calls_proof : forall c sigma ok e esc fuel s,
+  callsafe ok e = true -> (forall f, ok f = true -> not_macro c s f) -> bound c s sigma -> (depth e <= fuel)%nat ->
+  res_rel s s (run_compiled c fuel esc s (compile_expr e)) (run_compiled c fuel esc s (compile_expr (subst sigma e))) /\
+  res_rel s s (eval c fuel esc s (fold_sub e)) (eval c fuel esc s (fold_sub (subst sigma e))).
+Proof.
+  intros c sigma ok e esc fuel s Hp Hn Hb Hd. split.
+  - rewrite !compile_transparent_proof by (rewrite ?depth_subst; assumption).
+    apply (hoist_calls_proof c sigma ok); auto using same_refl.
+  - rewrite !fold_everywhere_proof by (rewrite ?depth_subst; assumption).
+    apply (hoist_calls_proof c sigma ok); auto using same_refl.
 Qed.
